@@ -5,10 +5,8 @@ package main
 import (
 	"bytes"
 	"fmt"
-	"os"
 	"runtime"
 	"strings"
-	"time"
 	"unicode/utf8"
 
 	"github.com/gotd/td/internal/verif/kit"
@@ -137,7 +135,7 @@ var htmlWrap = [][2]string{
 }
 
 var markdownWrap = [][2]string{
-	{"**", "**"}, {"*", "*"}, {"__", "__"}, {"~~", "~~"}, {"||", "||"}, {"`", "`"}, {"[", "](http://x.y)"}, {"![", "](tg://emoji?id=5)"},
+	{"**", "**"}, {"*", "*"}, {"__", "__"}, {"~~", "~~"}, {"||", "||"}, {"`", "`"}, {"[", "](http://x.y)"}, {"![", "](tg://emoji?id=5)"}, {"![", "](http://x.y)"}, {"[", "]()"},
 	{"> ", ""}, {"```\n", "\n```"},
 }
 
@@ -267,8 +265,6 @@ func main() {
 		par := func(ws []witness, fam *kit.Fam[witness]) {
 			kit.Parallel(len(ws), runtime.NumCPU(), func(i int) { fam.Eval(ws[i]) })
 		}
-		t0 := time.Now()
-		phase := func(n string) { fmt.Fprintf(os.Stderr, "c37: phase %s done at %.1fs\n", n, time.Since(t0).Seconds()) }
 		// forests first (small, fixed order => minimal, stable witnesses)
 		for _, p := range []struct {
 			parser string
@@ -290,7 +286,6 @@ func main() {
 				})
 			}
 		}
-		phase("nest")
 		// corpus
 		for _, p := range []struct {
 			parsers []string
@@ -311,7 +306,6 @@ func main() {
 				}
 			}
 		}
-		phase("corpus")
 		// stress
 		var sw []witness
 		reps := []int{1000, 10000}
@@ -327,7 +321,6 @@ func main() {
 			}
 		}
 		kit.Parallel(len(sw), 8, func(i int) { stress.Eval(sw[i]) })
-		phase("stress")
 		// token soups, shortest first
 		for _, p := range []struct {
 			parser string
@@ -346,7 +339,6 @@ func main() {
 				par(batch, soup)
 			}
 		}
-		phase("tokens")
 		if c.Expired() {
 			c.NotExhaustive("time budget hit in the token sequences")
 		}
